@@ -45,7 +45,9 @@ var presetNames = []string{"noretarget", "retarget", "mindiff"}
 // masterLen is the master chain length (heights 1..masterLen) per preset.
 var masterLen = []int{3400, 1100, 1100}
 
-func newWorld(seed int64, preset int, scratch string) (*world, error) {
+// newWorldGen is the generator (chain parameters + genesis) of a world: a pure
+// function of (seed, preset).
+func newWorldGen(seed int64, preset int) *chaingen.Gen {
 	g := chaingen.NewGen(chaingen.Config{
 		Seed: seed*16 + int64(preset) + 1, Preset: preset, Interval: 8,
 		GenesisTime: genesisTime, Now: refNow,
@@ -53,6 +55,11 @@ func newWorld(seed int64, preset int, scratch string) (*world, error) {
 	// Keep mining cheap: difficulty still moves under the retargeting
 	// presets, but is steered back down once a header costs > 96 hashes.
 	g.MaxHashes = 96
+	return g
+}
+
+func newWorld(seed int64, preset int, scratch string) (*world, error) {
+	g := newWorldGen(seed, preset)
 	w := &world{preset: preset, name: presetNames[preset], g: g, seed: seed}
 	w.master = append(w.master, g.Genesis)
 	w.master = append(w.master, g.Extend(g.Genesis, masterLen[preset], chaingen.PaceMixed)...)
